@@ -11,7 +11,12 @@ definitions of `guppy`, `result`, `array`, `owned` (arrays are lists, structs da
     a missing port, a tag without a successor: `Malformed` -> a failing input of the property, the HUGR is ill-formed);
   * an op the interpreter does not know is `Unsupported` (counted, never a violation);
   * integers are 64-bit two's complement on the HUGR side; a CPython run in which an arithmetic result leaves
-    +-2^62, which raises, or which does not finish within the step budget is skipped.
+    +-2^62 or which does not finish within the step budget is skipped;
+  * PANICS ARE TRACE EVENTS: a CPython ZeroDivisionError / IndexError / OverflowError / ValueError / GuppyPanic (nat(-1),
+    int(1e30)) is the expected outcome ("panic", results reported before it); the HUGR run must panic after exactly the
+    same results.  Under the adversarial schedule the panic of an op WITHOUT order edges (idiv by zero, is_to_u, borrow)
+    may come before earlier / after later results of its region: verdict `panic-overtakes` (counted, no violation);
+    explicit prelude.panic nodes and the first-ready schedule must agree exactly.
 
 Entry points: `tie_hugr_exec(ctx, budget_s, pid)`, `search_hugr_exec(ctx, budget_s, pid)`, `check_program(src, entries)`,
 `gen_exec_program(rng, ...)`.  Scratch use:  /venv/bin/python harness/props/c03_hugr.py --n 2000 [--seed k] [--pid C05]
@@ -48,7 +53,12 @@ class Malformed(Exception):
 
 
 class Panic(Exception):
-    pass
+    """origin "program": an explicit prelude.panic / exit node (order-linked by the compiler);
+    origin "op": a panic raised inside an op (division by zero, borrow out of range, is_to_u ...), which carries no order edge"""
+
+    def __init__(self, msg, origin="op"):
+        super().__init__(msg)
+        self.origin = origin
 
 
 class OutOfFuel(Exception):
@@ -122,7 +132,15 @@ def _umod(a, b):
     return a % b
 
 
+def _sign_conv(a):
+    if a >= 2**63:
+        raise Panic("integer out of range for a signedness conversion")
+    return a
+
+
 INT_OPS = {
+    "is_to_u": _sign_conv,
+    "iu_to_s": _sign_conv,
     "iadd": lambda a, b: (a + b) % M,
     "isub": lambda a, b: (a - b) % M,
     "imul": lambda a, b: (a * b) % M,
@@ -188,7 +206,7 @@ def const_value(v):
     import hugr.val as hv
 
     name = type(v).__name__
-    if name == "IntVal":
+    if name in ("IntVal", "UnsignedIntVal"):
         if getattr(v, "width", 6) != 6:
             raise Unsupported(f"const int of log-width {v.width}")
         return v.v % M
@@ -563,7 +581,7 @@ class Interp:
         if name in ("prelude.panic", "prelude.exit"):
             e = a[0]
             msg = e[2] if isinstance(e, tuple) and len(e) == 3 else str(e)
-            raise Panic(msg)
+            raise Panic(msg, "program")
         raise Unsupported(name)
 
     def array_op(self, k, name, op, a):
@@ -712,12 +730,12 @@ class Interp:
 
 # ============================================================================ types of the generated / corpus programs
 
-INT, BOOL, FLOAT, NONE = ("int",), ("bool",), ("float",), ("none",)
+INT, BOOL, FLOAT, NONE, NAT = ("int",), ("bool",), ("float",), ("none",), ("nat",)
 
 
 def ty_str(t) -> str:
     k = t[0]
-    if k in ("int", "bool", "float"):
+    if k in ("int", "bool", "float", "nat"):
         return k
     if k == "none":
         return "None"
@@ -734,7 +752,7 @@ def parse_ty(node, structs):
     if isinstance(node, ast.Constant) and node.value is None:
         return NONE
     if isinstance(node, ast.Name):
-        if node.id in ("int", "bool", "float"):
+        if node.id in ("int", "bool", "float", "nat"):
             return (node.id,)
         if node.id in structs:
             return ("struct", node.id)
@@ -775,9 +793,9 @@ def parse_sigs(src: str):
 
 def enc_hugr(v, t, structs):
     k = t[0]
-    if k == "int":
-        if type(v) is not int:
-            raise ValueError(f"argument {v!r} for int")
+    if k in ("int", "nat"):
+        if type(v) is not int or (k == "nat" and v < 0):
+            raise ValueError(f"argument {v!r} for {k}")
         return v % M
     if k == "bool":
         return bool(v)
@@ -797,7 +815,7 @@ def enc_hugr(v, t, structs):
 
 def enc_py(v, t, structs, env):
     k = t[0]
-    if k == "int":
+    if k in ("int", "nat"):
         return int(v)
     if k == "bool":
         return bool(v)
@@ -887,6 +905,41 @@ class _Overflow(Exception):
 
 class _PyTimeout(Exception):
     pass
+
+
+class GuppyPanic(Exception):
+    """raised by the CPython stand-ins of Guppy conversions where the compiled program panics (nat(-1), int(1e30))"""
+
+
+#: CPython exceptions that are the PANIC of the compiled program: the expected outcome is ("panic", results so far)
+PANIC_CLASSES = (ZeroDivisionError, IndexError, OverflowError, ValueError, GuppyPanic)
+
+
+def _g_int(x=0):
+    """Guppy's int(): floats are truncated towards zero and must fit 64 bits (inf / nan raise like in Python)"""
+    v = int(x)
+    if not -(2**63) <= v < 2**63:
+        raise GuppyPanic("int() out of range")
+    return v
+
+
+def _g_nat(x=0):
+    v = int(x)
+    if v < 0:
+        raise GuppyPanic("nat() of a negative number")
+    return v
+
+
+def affine(t, structs) -> bool:
+    """does a value of this type contain an array (not copyable: passed by borrow unless @owned, handed back at the end)"""
+    k = t[0]
+    if k == "array":
+        return True
+    if k == "struct":
+        return any(affine(ft, structs) for _, ft in structs[t[1]])
+    if k == "tuple":
+        return any(affine(ft, structs) for ft in t[1])
+    return False
 
 
 class GList(list):
@@ -992,7 +1045,7 @@ class PyProgram:
             pass
 
         self.env = {"guppy": G(), "result": result, "array": array, "owned": Ann(), "comptime": lambda x: x,
-                    "__chk": _chk}
+                    "__chk": _chk, "int": _g_int, "nat": _g_nat}
         tree = ast.parse(src)
         if guarded:
             tree = ast.fix_missing_locations(_Guard().visit(tree))
@@ -1007,7 +1060,8 @@ class PyProgram:
         return self._tracer
 
     def run(self, fname, pyargs):
-        """-> ("res", canonical value, trace, argument objects after the call) | ("raise", class name, trace, None)"""
+        """-> ("res", value, trace, argument objects after the call) | ("panic", class name, trace, None) for the exception
+        classes that are a panic of the compiled program | ("raise", class name, trace, None) for anything else"""
         self.trace = []
         self.steps = 0
         old = sys.gettrace()
@@ -1016,6 +1070,8 @@ class PyProgram:
             r = self.env[fname](*pyargs)
         except RecursionError:
             return ("raise", "RecursionError", self.trace, None)
+        except PANIC_CLASSES as e:
+            return ("panic", type(e).__name__, self.trace, None)
         except Exception as e:  # noqa: BLE001
             return ("raise", type(e).__name__, self.trace, None)
         finally:
@@ -1024,9 +1080,9 @@ class PyProgram:
 
 
 def python_outcome(src, fname, args, sigs, cache):
-    """oracle outcome of one run: ("res", [canonical outputs], trace) | ("skip", why, None).
-    outputs = the returned value (a top-level tuple flattened, None = no output) followed by the final state of every
-    array parameter that is not @owned (borrowed arrays are handed back by the lowered function)."""
+    """oracle outcome of one run: ("res", [canonical outputs], trace) | ("panic", exception class, trace up to the raise)
+    | ("skip", why, None).  outputs = the returned value (a top-level tuple flattened, None = no output) followed by the final
+    state of every parameter that holds an array and is not @owned (borrowed values are handed back by the lowered function)."""
     structs, funcs = sigs
     params, ret = funcs[fname]
     outs = []
@@ -1044,6 +1100,9 @@ def python_outcome(src, fname, args, sigs, cache):
         kind, r, trace, after = prog.run(fname, pyargs)
         if kind == "raise":
             return ("skip", "python-raised:" + r, None)
+        if kind == "panic":
+            outs.append(("panic", r, list(trace)))
+            continue
         try:
             if ret[0] == "tuple":
                 if not isinstance(r, tuple) or len(r) != len(ret[1]):
@@ -1054,7 +1113,7 @@ def python_outcome(src, fname, args, sigs, cache):
             else:
                 vals = [canon_py(r)]
             for v, (_, t, owned) in zip(after, params):
-                if t[0] == "array" and not owned:
+                if not owned and affine(t, structs):
                     vals.append(canon_py(v))
         except _Overflow:
             return ("skip", "python-raised:_Overflow", None)
@@ -1070,8 +1129,8 @@ POLICIES = ("first", "last")
 
 
 def hugr_outcome(prog: Program, fname, args, sigs, policy):
-    """("res", [canonical outputs], trace) | ("panic", msg, trace) | ("malformed", msg, trace) | ("unsupported", op, None)
-    | ("nofuel", None, None)"""
+    """("res", [canonical outputs], trace) | ("panic", origin + message, trace) | ("malformed", msg, trace) |
+    ("unsupported", op, None) | ("nofuel", None, None)"""
     structs, funcs = sigs
     params, _ret = funcs[fname]
     it = Interp(prog, policy)
@@ -1086,7 +1145,7 @@ def hugr_outcome(prog: Program, fname, args, sigs, policy):
     except RecursionError:
         return ("nofuel", None, None)
     except Panic as e:
-        return ("panic", str(e)[:200], [(t, canon_hugr(v)) for t, v in it.trace])
+        return ("panic", e.origin + ": " + str(e)[:200], [(t, canon_hugr(v)) for t, v in it.trace])
     except Malformed as e:
         return ("malformed", str(e)[:400], [(t, canon_hugr(v)) for t, v in it.trace])
     except Exception as e:  # noqa: BLE001  (an interpreter failure on an ill-formed graph: missing port, wrong arity ...)
@@ -1151,6 +1210,20 @@ def check_program(src: str, entries, policies=POLICIES, prelude=None):
                         run["verdict"], run["why"] = got[0], got[1]
                     elif got[0] == "malformed":
                         run["verdict"], run["why"] = "malformed", got[1]
+                    elif want[0] == "panic":
+                        # CPython raised: the compiled program must panic after exactly the same results.  An op that panics
+                        # internally carries no order edge: under the adversarial schedule it may fire before results that
+                        # precede it in the same region (expected class, notes/INTERP.md: counted, not a violation)
+                        if got[0] == "panic" and got[2] == want[2]:
+                            run["verdict"] = "agree-panic"
+                        elif (pol != "first" and got[0] == "panic" and got[1].startswith("op:") and len(got[2]) != len(want[2])
+                              and (got[2] == want[2][:len(got[2])] or want[2] == got[2][:len(want[2])])):
+                            # the unordered panic fired early (results before it are missing) or late (results of later
+                            # calls of the same region came first)
+                            run["verdict"] = "panic-overtakes"
+                            run["why"] = ("early " if len(got[2]) < len(want[2]) else "late ") + got[1]
+                        else:
+                            run["verdict"] = "disagree"
                     elif got == want:
                         run["verdict"] = "agree"
                     else:
@@ -1188,18 +1261,29 @@ class HGen:
     BOOLS = ("c", "Zb", "_f", "b0", "y1")
     FLOATS = ("u", "F1", "_g", "fl")
     FLOAT_LITS = ("0.5", "1.5", "2.0", "0.25", "3.0", "1.0")
+    SHADOWABLE = ("round", "abs", "len", "pow", "divmod")  # int / bool / float / nat name types: a function of that name is rejected
 
     def __init__(self, rng, pid="C03", small=False, focus=None):
         self.r = rng
         self.pid = pid
         self.small = small
-        self.focus = focus or rng.choice(["field", "unpack", "order", "mixed", "mixed"] if pid == "C03"
-                                         else ["order", "order", "order", "field", "unpack", "mixed"])
+        self.focus = focus or rng.choice(["field", "unpack", "order", "mixed", "mixed", "effects", "effects"] if pid == "C03"
+                                         else ["order", "order", "effects", "effects", "field", "unpack", "mixed"])
+        eff = self.focus == "effects"
+        # (a) operands that can PANIC (conversions, division, subscripts), (b) reporting user functions NAMED like builtins,
+        # (c) reads of mutable state next to borrowing calls that mutate it
+        self.panicky = rng.random() < (0.8 if eff else 0.2)
+        self.shadow = rng.sample(self.SHADOWABLE, rng.randint(1, 3)) if rng.random() < (0.8 if eff else 0.2) else []
+        self.mut = rng.random() < (0.85 if eff else 0.3)
+        self.with_s = self.mut and rng.random() < 0.3
+        self.need_poke = {}
+        self.has_float_param = False
         self.structs = {}
         self.tuples = []
         self.helpers = []  # (name, [param types], return type)
         self.feat = {"field_branch": 0, "array_unpack": 0, "starred_unpack": 0, "d9": 0, "for_array": 0, "subscript": 0,
-                     "tuple_unpack": 0, "loops": 0, "branches": 0, "calls": 0, "results": 0}
+                     "tuple_unpack": 0, "loops": 0, "branches": 0, "calls": 0, "results": 0,
+                     "panic_ops": 0, "shadow_calls": 0, "mut_reads": 0, "effect_shapes": 0}
         self.ntag = 0
         self.nloop = 0
         self.protected = set()
@@ -1208,6 +1292,7 @@ class HGen:
         self.budget = 0
         self.maxd = 2
         self.in_helper = False
+        self.borrowed = set()
 
     # ------------------------------------------------------------------ names
     def pool(self, t):
@@ -1259,7 +1344,8 @@ class HGen:
         opts = [("tuple", (INT, INT)), ("tuple", (INT, INT, INT)), ("tuple", (INT, FLOAT)), ("tuple", (INT, BOOL, INT)),
                 ("tuple", (FLOAT, FLOAT)), ("tuple", (INT, ("tuple", (INT, INT)))), ("tuple", (("tuple", (INT, BOOL)), INT))]
         for s in self.structs:
-            opts += [("struct", s)] * 4
+            if not affine(("struct", s), self.structs):
+                opts += [("struct", s)] * 4
         if "P" in self.structs:
             opts.append(("tuple", (("struct", "P"), INT)))
         return r.choice(opts)
@@ -1296,8 +1382,8 @@ class HGen:
         return out
 
     def arrays(self, env, elt=None, consumable=False):
-        return sorted(n for n, ty in env["v"].items() if ty[0] == "array" and ty[2] >= 1 and (elt is None or ty[1] == elt)
-                      and (not consumable or n not in env["fixed"]))
+        return sorted(n for n, ty in env["v"].items() if ty[0] == "array" and ty[2] >= 1 and ty[1][0] != "array"
+                      and (elt is None or ty[1] == elt) and (not consumable or n not in env["fixed"]))
 
     # ------------------------------------------------------------------ expressions
     def lit(self, t):
@@ -1314,14 +1400,18 @@ class HGen:
         k = r.random()
         if d <= 0 or k < 0.5:
             return str(r.randrange(n))
-        if k < 0.75 and not self.in_helper:
+        if k < 0.62 and not self.in_helper:
             self.feat["calls"] += 1
             return f"ix({self.expr(env, INT, d - 1)}, {n})"
+        ih = [h for h in self.helpers if h[1] == [INT] and h[2] == INT]
+        if k < 0.75 and ih and not self.in_helper:
+            return f"({self.call(env, r.choice(ih), 1)}) % {n}"
         return f"({self.expr(env, INT, d - 1)}) % {n}"
 
     def call(self, env, h, d):
         name, ptys, _ = h
         self.feat["calls"] += 1
+        self.feat["shadow_calls"] += name in self.shadow
         return f"{name}({', '.join(self.expr(env, t, d - 1) for t in ptys)})"
 
     def callable_helpers(self, ret):
@@ -1357,6 +1447,10 @@ class HGen:
         at = self.atoms(env, INT)
         arrs = self.arrays(env, INT)
         k = r.random()
+        deep = self.deep_reads(env)
+        if deep and r.random() < 0.12:
+            self.feat["subscript"] += 1
+            return r.choice(deep)
         if arrs and k < 0.15:
             a = r.choice(arrs)
             self.feat["subscript"] += 1
@@ -1368,10 +1462,74 @@ class HGen:
     def walrus_targets(self, env):
         return [v for v in self.vars_of(env, INT) if v not in self.protected]
 
+    def deep_reads(self, env):
+        """reads through a struct that holds an array / through a nested array"""
+        out = []
+        for n, ty in sorted(env["v"].items()):
+            if ty == ("struct", "S"):
+                out += [f"{n}.a[{i}]" for i in range(3)]
+            elif ty[0] == "array" and ty[1][0] == "array":
+                out += [f"{n}[{i}][{j}]" for i in range(ty[2]) for j in range(ty[1][2])]
+        return out
+
+    def poke_call(self, env):
+        """a borrowing call that MUTATES one of the live int arrays (or the struct holding one) and returns an int"""
+        r = self.r
+        if self.in_helper:
+            return None
+        cands = [(a, env["v"][a][2]) for a in self.arrays(env, INT) if env["v"][a][2] >= 2]
+        ss = [n for n, ty in sorted(env["v"].items()) if ty == ("struct", "S")]
+        rows = [(f"{n}[{i}]", ty[1][2]) for n, ty in sorted(env["v"].items()) if ty[0] == "array" and ty[1][0] == "array"
+                for i in range(ty[2])]
+        if ss and r.random() < 0.3:
+            self.feat["calls"] += 1
+            return f"bump({r.choice(ss)})"
+        if rows and r.random() < 0.25:
+            cands = cands + [r.choice(rows)]
+        if not cands:
+            return None
+        a, n = r.choice(cands)
+        self.need_poke.setdefault(n, r.randrange(4))
+        self.feat["calls"] += 1
+        return f"poke{n}({a})"
+
+    def panicky_int(self, env, d):
+        """an int operand that can PANIC at run time (CPython raises); never a negative divisor (known defect D11)"""
+        r = self.r
+        self.feat["panic_ops"] += 1
+        k = r.random()
+        arrs = self.arrays(env, INT)
+        if k < 0.25:
+            fl = self.atoms(env, FLOAT)
+            x = r.choice(fl) if fl and r.random() < 0.8 else r.choice(["1e30", "2.5", "-7.9", "-1e19", "9e18"])
+            return f"int({x})" if r.random() < 0.7 else f"int({x} * {r.choice(['2.0', '1e10', '0.5'])})"
+        if k < 0.45:
+            return f"int(nat({self.int_expr(env, d - 1)}))"
+        if k < 0.65:
+            return f"({self.int_expr(env, d - 1)} {r.choice(['//', '%'])} (({self.int_expr(env, 0)}) % {r.choice([2, 2, 3])}))"
+        if k < 0.85 and arrs:
+            a = r.choice(arrs)
+            n = env["v"][a][2]
+            self.feat["subscript"] += 1
+            if r.random() < 0.5:
+                return f"{a}[({self.int_expr(env, d - 1)}) % {n + r.randint(1, 2)}]"
+            return f"{a}[{self.int_atom(env)}]"
+        if k < 0.93 and "abs" not in self.shadow:
+            return f"abs({self.int_expr(env, d - 1)})"
+        if arrs and "len" not in self.shadow:
+            return f"(len({r.choice(arrs)}) - {r.randint(0, 3)})"
+        return f"int(nat({self.int_atom(env)}))"
+
     def int_expr(self, env, d=2):
         r = self.r
         if d <= 0 or r.random() < 0.3:
             return self.int_atom(env)
+        if self.panicky and r.random() < 0.1:
+            return self.panicky_int(env, d)
+        if self.mut and r.random() < 0.1:
+            pc = self.poke_call(env)
+            if pc:
+                return pc
         k = r.random()
         if k < 0.42:
             op = r.choice("++--*")
@@ -1495,7 +1653,7 @@ class HGen:
         sv = None
         if star:
             st = ("array", elt, rest)
-            sv = r.choice(self.pool(st))
+            sv = r.choice([x for x in self.pool(st) if x not in self.borrowed] or [f"st{rest}"])
             targets.insert(pos, "*" + sv)
         lhs = ", ".join(targets) + ("," if len(targets) == 1 else "")
         lines = pre + [f"{lhs} = {src}"]
@@ -1693,10 +1851,139 @@ class HGen:
         env["v"][rv] = INT
         return [f"{rv} = {g}({a()}) - {h}({a()}) * ({k}({a()}) if {self.bool_expr(env0, 1)} else {a()})"]
 
+    def st_effect(self, env):
+        """an earlier operand whose evaluation is OBSERVABLE without being a plain user call -- (a) it can panic, (b) it calls a
+        reporting user function named like a builtin, (c) it reads state that a later borrowing call mutates -- left of / inside
+        an operand with lifted control flow that reports (or mutates); also as chain middle, call argument, augmented right-hand
+        side and as the index of (augmented) subscript assignments whose right-hand side mutates what the index reads"""
+        r = self.r
+        env0 = self.copy(env)
+        atom = lambda: self.int_atom(env0)  # noqa: E731
+        name = lambda: (r.choice(self.vars_of(env0, INT) or ["0"]))  # noqa: E731
+        ih = [h[0] for h in self.helpers if h[1] == [INT] and h[2] == INT]
+        g, h = r.choice(ih), r.choice(ih)
+        self.feat["shadow_calls"] += (g in self.shadow) + (h in self.shadow)
+        cnd = lambda: self.bool_expr(env0, 1) if r.random() < 0.5 else f"c0({atom()})"  # noqa: E731
+        arrs = [x for x in self.arrays(env0, INT) if env0["v"][x][2] >= 2]
+        ints = self.walrus_targets(env0)
+        rv = r.choice([v for v in self.INTS if v not in self.protected])
+        bv = r.choice(self.BOOLS)
+        kinds = []
+        if self.panicky:
+            kinds += ["a"] * 3
+        if self.shadow:
+            kinds += ["b"] * 3
+        if self.mut and (arrs or self.deep_reads(env0)):
+            kinds += ["c"] * 6
+        if not kinds:
+            return None
+        kind = r.choice(kinds)
+        self.feat["effect_shapes"] += 1
+        self.feat["calls"] += 2
+        if kind == "c":
+            self.feat["mut_reads"] += 1
+            deep = self.deep_reads(env0)
+            pc = self.poke_call(env0)
+            if pc is None:
+                return None
+            target = pc[pc.index("(") + 1:-1]  # what the call mutates
+            if target in env0["v"] and env0["v"][target][0] == "array":
+                n = env0["v"][target][2]
+                rd = f"{target}[{r.randrange(min(n, 2))}]"
+            elif target in env0["v"]:  # the struct
+                rd = f"{target}.a[{r.randrange(2)}]"
+            else:  # a row of a nested array
+                rd = f"{target}[{r.randrange(2)}]"
+            lifted = f"({pc} if {cnd()} else {atom()})"
+            shape = r.choice([0, 0, 0, 1, 2, 3, 3, 4, 5, 6, 6, 6, 6, 7, 7, 8, 9, 10])
+            others = [x for x in arrs if x != target]
+            if shape == 0:
+                env["v"][rv] = INT
+                return [f"{rv} = {rd} {r.choice('+-*')} {lifted}"]
+            if shape == 1:
+                env["v"][bv] = BOOL
+                return [f"{bv} = {rd} {r.choice(['<', '<=', '!='])} {pc} {r.choice(['<', '>=', '=='])} {rd}"]
+            if shape == 2:
+                env["v"][bv] = BOOL
+                return [f"{bv} = {atom()} <= {rd} < {lifted}"]
+            if shape == 3:
+                two = [hh[0] for hh in self.helpers if hh[1] == [INT, INT] and hh[2] == INT]
+                env["v"][rv] = INT
+                if two:
+                    return [f"{rv} = {r.choice(two)}({rd}, {lifted})"]
+                return [f"{rv} = {g}({rd} + {lifted})"]
+            if shape == 4 and ints:
+                return [f"{r.choice(ints)} {r.choice(['+=', '-='])} {rd} * {lifted}"]
+            if shape == 5:
+                env["v"][rv] = INT
+                return [f"{rv} = {rd} - {pc}"]
+            if shape in (6, 7, 8) and target in env0["v"] and env0["v"][target][0] == "array":
+                # the index of a subscript assignment reads what the right-hand side mutates
+                dst = r.choice(others) if others and r.random() < 0.7 else target
+                m = env0["v"][dst][2]
+                idx = r.choice([f"{target}[0] % {m}", f"({target}[0] + {target}[0]) % {m}", f"{target}[1] % {m}",
+                                f"{target}[0]" if self.panicky else f"{target}[0] % {m}"])
+                self.feat["subscript"] += 1
+                if shape == 6:
+                    return [f"{dst}[{idx}] {r.choice(['+=', '-=', '*='])} {pc}"]
+                if shape == 7:
+                    return [f"{dst}[{idx}] = {pc}"]
+                return [f"{dst}[{idx}] += {pc} * 2 if {cnd()} else {atom()}"]
+            if shape == 9 and deep:
+                env["v"][rv] = INT
+                return [f"{rv} = {r.choice(deep)} + {lifted} - {r.choice(deep)}"]
+            env["v"][rv] = INT
+            return [f"{rv} = {g}({atom()}) + {rd} * ({pc} if {cnd()} else {h}({atom()}))"]
+        # (a) / (b): the observable earlier operand P
+        if kind == "a":
+            P = self.panicky_int(env0, 1)
+        else:
+            self.feat["shadow_calls"] += 1
+            P = f"{r.choice(self.shadow)}({name() if r.random() < 0.7 else atom()})"
+        lifted = r.choice([f"({g}({atom()}) if {cnd()} else {h}({atom()}))", f"({g}({atom()}) if {cnd()} else {atom()})",
+                           f"({name()} if c0({atom()}) and c0({atom()}) else {h}({atom()}))"])
+        shape = r.randrange(9)
+        if shape == 0:
+            env["v"][rv] = INT
+            return [f"{rv} = {P} {r.choice('+-*')} {lifted}"]
+        if shape == 1:
+            env["v"][bv] = BOOL
+            return [r.choice([f"{bv} = {atom()} < {P} <= {g}({atom()})", f"{bv} = {P} < {g}({atom()}) < {h}({atom()})",
+                              f"{bv} = {g}({atom()}) != {P} < {lifted}"])]
+        if shape == 2 and ints:
+            return [f"{r.choice(ints)} {r.choice(['+=', '-='])} {P} + {lifted}"]
+        if shape == 3:
+            two = [hh[0] for hh in self.helpers if hh[1] == [INT, INT] and hh[2] == INT]
+            env["v"][rv] = INT
+            if two:
+                return [f"{rv} = {r.choice(two)}({P}, {lifted})"]
+            return [f"{rv} = {g}({P} - {lifted})"]
+        if shape == 4:
+            env["v"][rv] = INT
+            return [f"{rv} = {g}({atom()}) + ({P} if c0({atom()}) else {h}({atom()}))"]
+        if shape == 5:
+            env["v"][bv] = BOOL
+            return [f"{bv} = {P} > {atom()} {r.choice(['and', 'or'])} {g}({atom()}) > {atom()}"]
+        if shape == 6 and arrs:
+            xs = r.choice(arrs)
+            n = env0["v"][xs][2]
+            self.feat["subscript"] += 1
+            return [f"{xs}[({P}) % {n}] {r.choice(['+=', '=', '-='])} {lifted}"]
+        if shape == 7 and arrs and self.panicky:
+            xs = r.choice(arrs)
+            self.feat["subscript"] += 1
+            return [f"{xs}[{atom()}] {r.choice(['+=', '='])} {lifted}"]
+        env["v"][rv] = INT
+        return [f"{rv} = {P} - {g}({atom()}) * {lifted}"]
+
     def simple(self, env, d, in_loop):
         r = self.r
         k = r.random()
         f = self.focus
+        if not self.in_helper and (self.panicky or self.shadow or self.mut) and r.random() < (0.3 if f == "effects" else 0.1):
+            lines = self.st_effect(env)
+            if lines:
+                return lines
         if not self.in_helper:
             if k < (0.22 if f == "field" else 0.07):
                 return self.st_field_branch(env, d, in_loop)
@@ -1738,7 +2025,7 @@ class HGen:
             return [f"{v} = {callx}"]
         if k < 0.82:
             t = self.aggregate_ty() if r.random() < 0.7 else self.array_ty()
-            v = r.choice(self.pool(t))
+            v = r.choice([x for x in self.pool(t) if x not in self.borrowed] or [f"nw{t[-1]}"])
             line = f"{v} = {self.expr(env, t, 1)}"
             env["v"][v] = t
             env["fixed"].discard(v)
@@ -1886,7 +2173,12 @@ class HGen:
         cmpx = r.choice(["a > 1", "a % 2 == 0", "a <= 3", "a != 2"])
         # `ix` is only ever called through self.index() with a positive literal as its second argument
         self.helpers += [("g0", [INT], INT), ("g1", [INT], INT), ("c0", [INT], BOOL)]
-        return (f'@guppy\ndef g0(a: int) -> int:\n    result("g0", a)\n    return {f1}\n\n'
+        extra = ""
+        for nm in self.shadow:  # reporting user functions that shadow a builtin name
+            body = r.choice(["n + 1", "n // 10 * 10", "n * 2", "5 - n", "n % 3"])
+            extra += f'@guppy\ndef {nm}(n: int) -> int:\n    result("{nm}", n)\n    return {body}\n\n'
+            self.helpers.append((nm, [INT], INT))
+        return extra + (f'@guppy\ndef g0(a: int) -> int:\n    result("g0", a)\n    return {f1}\n\n'
                 f'@guppy\ndef g1(a: int) -> int:\n    result("g1", a)\n    return {f2}\n\n'
                 f'@guppy\ndef c0(a: int) -> bool:\n    result("c0", a)\n    return {cmpx}\n\n'
                 '@guppy\ndef ix(i: int, n: int) -> int:\n    result("ix", i)\n    return i % n\n\n')
@@ -1940,6 +2232,16 @@ class HGen:
             add(self.aggregate_ty())
         for _ in range(r.choice([1, 1, 2] if f == "unpack" else [0, 0, 1, 1])):
             add(self.array_ty(), r.random() < 0.75)
+        if self.panicky and r.random() < 0.7 and not any(t == FLOAT for _, t, _ in params):
+            add(FLOAT)
+        if self.mut:
+            # borrowed int arrays: their final contents are outputs of the lowered function, so a misplaced write is visible
+            for _ in range(r.choice([1, 2, 2])):
+                add(("array", INT, r.choice([2, 3, 3, 4])), r.random() < 0.15)
+            if self.with_s:
+                add(("struct", "S"))
+            if r.random() < 0.25:
+                params.append(("xss", ("array", ("array", INT, r.choice([2, 3])), r.choice([2, 3])), False))
         r.shuffle(params)
         q = r.random()
         if q < 0.5:
@@ -1958,10 +2260,15 @@ class HGen:
         self.budget = r.randint(2, 5) if self.small else r.randint(4, 13)
         self.maxd = 2 if self.small else r.choice([2, 3, 3])
         env = {"v": {v: t for v, t, _ in params}, "fixed": {v for v, t, o in params if t[0] == "array" and not o}}
+        self.borrowed = set(env["fixed"])  # borrowed array parameters must not be re-assigned (BorrowShadowedError)
         body, jumped = self.block(self.maxd, env, False)
         if not jumped:
             if r.random() < 0.4:
                 body += self.st_result(env)
+            if self.mut:  # report the whole state of up to two arrays
+                for a in self.arrays(env, INT)[:2]:
+                    self.feat["results"] += 1
+                    body.append(f'result("{self.tag()}", {self.poly([f"{a}[{i}]" for i in range(env["v"][a][2])])})')
             body += self.ret_lines(env)
         sig = ", ".join(f"{v}: {ty_str(t)}{' @owned' if o else ''}" for v, t, o in params)
         text = f"@guppy\ndef {name}({sig}) -> {ty_str(ret)}:\n" + "".join("    " + l + "\n" for l in body) + "\n"
@@ -1975,6 +2282,8 @@ class HGen:
         if k == "bool":
             return r.random() < 0.5
         if k == "float":
+            if self.panicky and r.random() < 0.3:
+                return r.choice([float("inf"), float("-inf"), float("nan"), 1e30, -1e19, 9.3e18])
             return r.choice([0.0, 0.5, -1.5, 2.25, 1.0, 3.5])
         if k == "struct":
             return [self.value(ft) for _, ft in self.structs[t[1]]]
@@ -1985,12 +2294,16 @@ class HGen:
                 return r.sample(range(1, 10), t[2])
             if t[1] == FLOAT:
                 return r.sample([0.5, 1.5, 2.5, 3.25, -1.0, 4.0, 6.5], t[2])
+            if t[1] != BOOL:
+                return [self.value(t[1]) for _ in range(t[2])]
             return [r.random() < 0.5 for _ in range(t[2])]
         raise ValueError(t)
 
     def program(self, nargs=3):
         r = self.r
         self.make_structs()
+        if self.with_s:
+            self.structs["S"] = [("a", ("array", INT, 3)), ("n", INT)]
         src = ""
         for s, fs in self.structs.items():
             src += "@guppy.struct\nclass " + s + ":\n" + "".join(f"    {f}: {ty_str(t)}\n" for f, t in fs) + "\n"
@@ -2008,6 +2321,14 @@ class HGen:
             for _ in range(nargs):
                 argl.append([self.value(t) for _, t, _o in params])
             entries.append([name, argl])
+        for n, var in sorted(self.need_poke.items()):  # borrowing, mutating helpers (resolved at call time: defined last)
+            lines = [["old = ys[1]", "ys[0] += 1", "ys[1] += 10"], ["old = ys[0]", "ys[0] += 10", "ys[1] += 1"],
+                     ["old = ys[0] + ys[1]", "ys[1] = ys[0]", "ys[0] += 1"], ["old = ys[1]", "ys[0] = ys[0] + 1"]][var]
+            if var % 2 == 0:
+                lines.append(f'result("poke{n}", old)')
+            src += f"@guppy\ndef poke{n}(ys: array[int, {n}]) -> int:\n" + "".join(f"    {l}\n" for l in lines) + "    return old\n\n"
+        if self.with_s:
+            src += '@guppy\ndef bump(s: S) -> int:\n    s.a[0] += 1\n    result("bump", s.a[0])\n    return s.a[1] + s.n\n\n'
         return src, entries, dict(self.feat, focus=self.focus)
 
 
@@ -2050,7 +2371,7 @@ class _Drop(ast.NodeTransformer):
 
     def generic_visit(self, node):
         if isinstance(node, ast.Module):
-            node.body = [f for f in node.body if not (isinstance(f, ast.FunctionDef) and self._hit())]
+            node.body = [f for f in node.body if not (isinstance(f, ast.FunctionDef | ast.ClassDef) and self._hit())]
         for f in ("body", "orelse"):
             v = getattr(node, f, None)
             if isinstance(v, list) and isinstance(node, ast.FunctionDef | ast.If | ast.While | ast.For):
@@ -2113,7 +2434,7 @@ def _corpus(pid):
 
 
 def _nontrivial(feat, run):
-    return run["verdict"] in ("agree", "disagree", "malformed") and bool(run["py"] and run["py"][2]) and (
+    return run["verdict"] in ("agree", "agree-panic", "panic-overtakes", "disagree", "malformed") and bool(run["py"] and run["py"][2]) and (
         feat.get("corpus") or feat.get("branches", 0) + feat.get("loops", 0) + feat.get("field_branch", 0) > 0)
 
 
@@ -2148,6 +2469,8 @@ def _new_stats():
             "runs_by_verdict": {}, "unsupported_by_op": {}, "skipped": {}, "unsupported_fraction": 0.0,
             "struct_field_branch_programs": 0, "array_unpack_programs": 0, "starred_unpack_programs": 0,
             "tuple_unpack_programs": 0, "d9_shape_programs": 0, "for_array_programs": 0, "subscript_programs": 0,
+            "panic_operand_programs": 0, "builtin_named_function_programs": 0, "mutable_read_programs": 0,
+            "agreed_panics": 0, "panic_overtakes": 0, "panic_overtakes_late": 0,
             "programs_by_focus": {}, "failing_runs": 0, "op_names": []}
 
 
@@ -2163,7 +2486,9 @@ def run_cases(ctx, cases, st, deadline, ops, max_reports=4, shrink=True):
         st["corpus_programs"] += is_corpus
         for k_, c_ in (("field_branch", "struct_field_branch_programs"), ("array_unpack", "array_unpack_programs"),
                        ("starred_unpack", "starred_unpack_programs"), ("tuple_unpack", "tuple_unpack_programs"),
-                       ("d9", "d9_shape_programs"), ("for_array", "for_array_programs"), ("subscript", "subscript_programs")):
+                       ("d9", "d9_shape_programs"), ("for_array", "for_array_programs"), ("subscript", "subscript_programs"),
+                       ("panic_ops", "panic_operand_programs"), ("shadow_calls", "builtin_named_function_programs"),
+                       ("mut_reads", "mutable_read_programs")):
             st[c_] += bool(feat.get(k_))
         if "focus" in feat:
             st["programs_by_focus"][feat["focus"]] = st["programs_by_focus"].get(feat["focus"], 0) + 1
@@ -2202,6 +2527,9 @@ def run_cases(ctx, cases, st, deadline, ops, max_reports=4, shrink=True):
             st["runs"] += 1
             v = run["verdict"]
             st["runs_by_verdict"][v] = st["runs_by_verdict"].get(v, 0) + 1
+            st["agreed_panics"] += v == "agree-panic"
+            st["panic_overtakes"] += v == "panic-overtakes"
+            st["panic_overtakes_late"] += v == "panic-overtakes" and str(run["why"]).startswith("late")
             if v == "unsupported":
                 st["unsupported_by_op"][run["why"]] = st["unsupported_by_op"].get(run["why"], 0) + 1
             elif v == "skip":
@@ -2228,12 +2556,33 @@ def _finish(ctx, st, ops, t0, key):
     return st
 
 
+def _lifts(e) -> bool:
+    return any(isinstance(n, ast.IfExp | ast.BoolOp | ast.NamedExpr) or (isinstance(n, ast.Compare) and len(n.ops) > 1)
+               for n in ast.walk(e))
+
+
+def augsub_lifted(src: str) -> bool:
+    """does the program contain `xs[i] op= <right-hand side with lifted control flow>` (shape tag, see AVOID_SHAPES)"""
+    try:
+        return any(isinstance(n, ast.AugAssign) and isinstance(n.target, ast.Subscript) and _lifts(n.value)
+                   for n in ast.walk(ast.parse(src)))
+    except SyntaxError:
+        return False
+
+
+#: shape tags whose programs are NOT generated (scratch switch `C03_HUGR_AVOID=augsub`, used to look for further classes
+#: of disagreement behind a known one).  Empty in the check: nothing is hidden.
+AVOID_SHAPES = set(filter(None, os.environ.get("C03_HUGR_AVOID", "").split(",")))
+
+
 def gen_cases(rng, pid, n, nargs=3, focus=None):
     for k in range(n):
         try:
             src, entries, feat = gen_exec_program(rng, pid, small=(k % 4 == 0), focus=focus, nargs=nargs)
         except Exception as e:  # noqa: BLE001  (a generator problem must not kill the check)
             yield f"gen{k}", f"# generator failed: {type(e).__name__}: {e}\n", [], {"generator_error": 1}
+            continue
+        if "augsub" in AVOID_SHAPES and augsub_lifted(src):
             continue
         yield f"gen{k}", src, entries, feat
 
@@ -2243,8 +2592,8 @@ def tie_hugr_exec(ctx, pid="C03", n=None, budget_s=None):
     import random
 
     t0 = time.time()
-    n = n if n is not None else ctx.n(90, 1800)
-    budget_s = budget_s if budget_s is not None else ctx.n(9, 170)
+    n = n if n is not None else ctx.n(100, 1800)
+    budget_s = budget_s if budget_s is not None else ctx.n(11, 190)
     rng = random.Random(f"hugr-exec:{pid}:{getattr(ctx, 'seed', 0)}")
     st, ops = _new_stats(), set()
     st["budget_s"], st["target_programs"], st["stopped_by_budget"] = budget_s, n, False
@@ -2268,7 +2617,7 @@ def search_hugr_exec(ctx, pid="C03", budget_s=None):
     st, ops = _new_stats(), set()
     st["budget_s"], st["stopped_by_budget"] = budget_s, False
     found = 0
-    for focus in ("field", "unpack", "order", "mixed") * 50:
+    for focus in ("effects", "field", "unpack", "order", "mixed") * 50:
         if time.time() - t0 > budget_s or found >= 2:
             break
         found += run_cases(ctx, gen_cases(rng, pid, 12, nargs=4, focus=focus), st, t0 + budget_s, ops, max_reports=2)
